@@ -154,4 +154,28 @@ def unmarshalBlob (raw : Bytes) (opts : List Pool) : Prog (Option Bytes) :=
   | .unmodelled => unmarshalBlobOpaque raw pool
   | .ok c => unmarshalBlobCompact raw c pool
 
+/-! ### `MetadataStatement.ParseAttestationRootCertificates` -/
+
+/-- the four characters removed from an `attestationRootCertificates` entry before it is decoded
+    (`strings.NewReplacer(" ", "", "\r", "", "\n", "", "\t", "")`: single-byte patterns, so the replacement works byte by byte) -/
+def isRootCertSpace (c : UInt8) : Bool := c = 0x20 || c = 0x0d || c = 0x0a || c = 0x09
+
+/-- one entry: `base64.StdEncoding.DecodeString` (padded, standard alphabet) of the entry without those characters -/
+def rootCertDer (entry : Bytes) : Option Bytes := B64Std.decode (entry.filter (fun c => !isRootCertSpace c))
+
+/-- `ParseAttestationRootCertificates`: entry by entry, decode then `x509.ParseCertificate`; the first failure of either ends the call
+    with an error (`none`); otherwise the certificates in the order of the entries -/
+def parseRootCertificates : List Bytes → Prog (Option (List CertView))
+  | [] => pure (some [])
+  | e :: rest =>
+    match rootCertDer e with
+    | none => pure none
+    | some der => do
+      match ← query (.x509Parse der) with
+      | .cert c =>
+        match ← parseRootCertificates rest with
+        | some cs => pure (some (c :: cs))
+        | none => pure none
+      | _ => pure none
+
 end WebAuthn.Fido
